@@ -27,6 +27,10 @@ for meta in mutants/*/meta.json seeded/*/meta.json; do
     match=0; for pat in "$@"; do case "$dir/" in *$pat*) match=1;; esac; done
     [ $match -eq 1 ] || continue
   fi
+  # a change that the property TEXT does not decide (the reference abstains there, with the reason
+  # recorded in its meta.json and in DESIGN.md) is listed, not counted
+  undecided=$(python3 -c "import json,sys; m=json.load(open('$meta')); print(m.get('undecided',''))")
+  if [ -n "$undecided" ]; then echo "UNDECIDED $dir: $undecided" | cut -c1-300; results+=("$dir:undecided"); continue; fi
   props=$(python3 -c "import json,sys; m=json.load(open('$meta')); print(' '.join(m.get('detected_by', [m['property']])))")
   owner=$(python3 -c "import json,sys; m=json.load(open('$meta')); print(m['property'])")
   git -C "$SCR/wt" checkout -q -- . && git -C "$SCR/wt" clean -fdq
